@@ -227,8 +227,9 @@ def handleExact (c : Case) : String := Id.run do
       | .ok (total, bA, bH, brute) =>
         if total != ret then return s!"viol {c.id} ret returned={ret} emitted-weight={total}"
         let evs := parseSearchEvs rest
-        if (var == "signed" || var == "signed_tbb") && !evs.isEmpty then
-          match validateSearches c.id gI (phaseSupports v 0 sup0 cycI) evs (var == "signed_tbb") with
+        if (var == "signed" || var == "signed_tbb" || var == "mpi_signed") && !evs.isEmpty then
+          -- MPI: the union of the searches of ALL ranks must be the searches of the sequential heuristic (c04_pairs_same_order)
+          match validateSearches c.id gI (phaseSupports v 0 sup0 cycI) evs (var != "signed") with
           | some d => return d
           | none => pure ()
         return s!"ok {c.id} {g.n} {g.m} {dim} {total} {bA} {bH} {if brute then 1 else 0} {evs.length}"
